@@ -11,6 +11,7 @@ from vyper.codegen.core import (
     clamp,
     clamp_basetype,
     clamp_le,
+    ensure_in_memory,
     get_bytearray_length,
     int_clamp,
     is_bytes_m_type,
@@ -480,6 +481,10 @@ def convert(expr, context):
 
     arg_ast = expr.args[0].reduced()
     arg = Expr(arg_ast, context).ir_node
+    if arg.value == "~empty" and isinstance(arg.typ, _BytestringT):
+        # `empty(Bytes[N])` is a value, not a pointer; the bytestring
+        # conversions read their argument through a pointer
+        arg = ensure_in_memory(arg, context)
     original_arg = arg
 
     out_typ = expr.args[1]._metadata["type"].typedef
